@@ -426,9 +426,9 @@ def spellings(value):
     if 32 < value < 127 and value not in (34, 39, 92):
         out += ['"%s"' % chr(value), "'%s'" % chr(value)]
     if value == 34:
-        out += ["'\"'"]
+        out += ["'\"'", '"\\""']
     if value == 39:
-        out += ['"\'"']
+        out += ['"\'"', "'\\''"]
     if value == 32:
         out += ['" "', "' '"]
     if value == 92:
@@ -479,6 +479,17 @@ def native_frontend(tier, seed):
             for sep in seps:
                 check(sp + sep, [(v, None)])
                 check(sep + sp, [(None, v)])
+    # characters of the syntax as the lower / upper limit of a two-sided item, every spelling x every separator
+    # (an escaped quote followed by an ellipsis and another quoted limit, a quoted colon before a colon, ...)
+    for v in (32, 34, 35, 39, 40, 44, 45, 46, 58, 92):
+        for sp in spellings(v):
+            for sep in seps:
+                for hi_text, hi in (("'z'", 122), ('"~"', 126), ("200", 200)):
+                    check(sp + sep + hi_text, [(v, hi)])
+                    check(sp + sep + hi_text + ", " + "300" + sep + "'\u20ac'", [(v, hi), (300, 8364)])
+                for lo_text, lo in (("'!'", 33), ("1", 1)):
+                    if lo <= v:
+                        check(lo_text + sep + sp, [(lo, v)])
     pairs = [(a, b) for a in values for b in values if a <= b]
     if tier == "quick":
         pairs = rnd.sample(pairs, 40)
